@@ -12,7 +12,8 @@ ANCHORS = ["ScenarioID.__str__", "ScenarioID.from_benchmark_id", "CommonRoadSolu
            "CommonRoadSolutionReader._parse_vehicle_id"]
 REQUIRED = ["kind.map", "kind.config", "kind.behaviour", "kind.behaviour+id", "kind.behaviour+ids",
             "kind.behaviour-noconfig", "cooperative", "country.ZAM", "solution.single", "solution.cooperative",
-            "all-model-type-cost-tuples"]
+            "all-model-type-cost-tuples", "assigned-after-print.map_id", "assigned-after-print.prediction_id",
+            "assigned-after-print.configuration_id"]
 ASSUMPTIONS = ["single-element prediction-id lists are not generated (canonical single form is the int)",
                "map names consist of letters and digits (the constructor strips everything else)"]
 SHARDS = {"quick": 2, "thorough": 16}
@@ -109,6 +110,40 @@ def run(ctx):
         except TypeError:
             if not (sid == back):
                 ctx.violation("C13/ScenarioID/parsed-id-not-equal/" + kind, "%r" % s, f)
+
+        # ---- the same object after a field assignment (ids are mutable): print -> assign -> print must follow the fields
+        f2 = dict(e)
+        f2.pop("scenario_version")
+        choices = ["map_id", "cooperative"]
+        if f2["configuration_id"] is not None:
+            choices.append("configuration_id")
+        if f2["obstacle_behavior"] is not None:
+            choices += ["obstacle_behavior", "prediction_id"]
+        fld = rng.choice(choices)
+        if fld == "cooperative":
+            f2[fld] = not f2[fld]
+        elif fld == "obstacle_behavior":
+            f2[fld] = rng.choice([b for b in "STPI" if b != f2[fld]])
+        elif fld == "prediction_id":
+            f2[fld] = [x + 1 for x in f2[fld]] if isinstance(f2[fld], list) else f2[fld] + 1
+        else:
+            f2[fld] = f2[fld] + 1
+        ctx.evaluation()
+        ctx.feature("assigned-after-print." + fld)
+        try:
+            setattr(sid, fld, f2[fld])
+            s2 = str(sid)
+            es2 = expected_str(dict(f2, scenario_version=version))
+            if s2 != es2:
+                ctx.violation("C13/ScenarioID.__str__/stale-after-assignment/" + fld,
+                              "printed %r, assigned %s=%r, printed %r expected %r" % (s, fld, f2[fld], s2, es2), f)
+            else:
+                back2 = ScenarioID.from_benchmark_id(s2, version)
+                if any(getattr(back2, k) != getattr(sid, k) for k in FIELDS):
+                    ctx.violation("C13/ScenarioID.from_benchmark_id/field-differs-after-assignment/" + fld,
+                                  "%r" % s2, f)
+        except Exception as ex:  # noqa
+            ctx.violation("C13/ScenarioID/assign-then-print-raises-%s/%s" % (type(ex).__name__, fld), repr(ex), f)
 
     # ---- solution benchmark ids through the real writer and reader
     tuples = [(m, t, c) for m in VehicleModel for t in VehicleType for c in SupportedCostFunctions[m.name].value]
